@@ -1,6 +1,7 @@
 package main
 
 import (
+	"strings"
 	"fmt"
 	"go/token"
 	"go/types"
@@ -29,6 +30,12 @@ func runC07(c *Ctx) {
 	c.ruleK2("U5-compile-before-publish")
 	c.Min("U5-compile-before-publish", 9)
 	c.ruleLifecycle("U6-no-lock-while-rules-run", map[string]bool{"engine-call1-no-lock": true, "engine-call2-no-lock": true, "engine-call3-no-lock": true, "engine-call4-no-lock": true})
+	// an update reaches the executions that start after it only through the rule builders of gp.rbSlice:
+	// every request runs on gp.rbSlice[gw.tag] itself, bound anew by prepare* (the binding obligation of C06-P2)
+	c.only = func(key string) bool { return strings.HasSuffix(key, "#own-rulebuilder") }
+	c.ruleLifecycleHelpers("U8-instances-run-the-published-builder")
+	c.only = nil
+	c.Min("U8-instances-run-the-published-builder", 2)
 	c.Min("U6-no-lock-while-rules-run", 24)
 	c.ruleEngineKeepsNoRules("U7-engine-keeps-no-rules-between-calls")
 	c.Min("U7-engine-keeps-no-rules-between-calls", 1)
